@@ -6,8 +6,7 @@ VARIABLE nev
 vars == <<mvars, nev>>
 Init == MInit /\ nev = 0
 Tick == nev < MaxEvents /\ nev' = nev + 1
-LiveHs == {h \in 1..nh : held[h] > 0}
-Slices == {<<>>} \cup {<<h>> : h \in LiveHs} \cup {<<g, h>> : g \in LiveHs, h \in LiveHs}
+Slices == {<<>>} \cup {<<h>> : h \in Hs} \cup {<<g, h>> : g \in Hs, h \in Hs}
 NewRootT(sz, pooled, kind) == Tick /\ NewRoot(sz, pooled, kind)
 RefT(h) == Tick /\ Ref(h)
 FreeT(h) == Tick /\ Free(h)
